@@ -4,6 +4,6 @@ CONSTANTS
   DevRawStart = FALSE
   DevEmptyTokPanics = FALSE
 SPECIFICATION MSpec
-INVARIANTS Refines CtxDiscipline CursorOrder NoReentry ErrCarried DepthSane TraceConforms
+INVARIANTS Refines CtxDiscipline CursorOrder NoReentry ErrCarried DepthSane TraceConforms NodeTraceConforms
 PROPERTIES Terminates NoWriteBeforeCommit
 CHECK_DEADLOCK FALSE
